@@ -144,11 +144,14 @@ class Loaded:
         return self.mods[name]
 
 
-def load_instrumented(modnames, extra_globals=None, re_shim=True, shadow=None):
+def load_instrumented(modnames, extra_globals=None, re_shim=True, shadow=None, using=None):
     """Load private, instrumented copies of `modnames` (in the given order) from their
     CURRENT source files.  While a later module in the list is executed, earlier copies
     stand in for the real modules in sys.modules, so `from .options import X` binds the
     instrumented X.  The real sys.modules entries are restored afterwards.
+
+    `using`: already loaded copies (name -> module) that must stand in for their real modules while these load
+    (so that e.g. a subclass defined here derives from the instrumented base class, not the real one).
 
     Returns dict name -> module copy.
     """
@@ -159,6 +162,11 @@ def load_instrumented(modnames, extra_globals=None, re_shim=True, shadow=None):
     out = {}
     saved = {}
     try:
+        for uname, umod in (using or {}).items():
+            if isinstance(umod, types.ModuleType) and umod.__name__ == "symx_copy." + uname:
+                saved[uname] = sys.modules.get(uname)
+                sys.modules[uname] = umod
+                out[uname] = umod
         for modname in modnames:
             spec = importlib.util.find_spec(modname)
             if spec is None or not spec.origin or not spec.origin.endswith(".py"):
@@ -192,6 +200,9 @@ def load_instrumented(modnames, extra_globals=None, re_shim=True, shadow=None):
                 if isinstance(gval, types.ModuleType) and gval.__name__ in out and gval is not out[gval.__name__]:
                     mod.__dict__[gname] = out[gval.__name__]
             out[modname] = mod
+        for uname in (using or {}):
+            if uname not in modnames:
+                out.pop(uname, None)
     finally:
         for modname, real in saved.items():
             if real is None:
